@@ -9,7 +9,7 @@ Import ListNotations.
 Local Open Scope Z_scope.
 Local Open Scope string_scope.
 
-Notation P := aes_prog.
+Local Notation P := aes_prog.
 
 (* names are concrete here: normalise string appends so that keys compare syntactically *)
 Ltac mget_tac ::=
